@@ -1,6 +1,7 @@
 package sim
 
 import (
+	"encoding/json"
 	"fmt"
 	"reflect"
 	"sigs.k8s.io/controller-runtime/pkg/client"
@@ -151,6 +152,7 @@ type Track struct {
 	StepIndex      int32
 	StepState      v1beta1.CanaryStepState
 	ReadySeen      map[int32]bool // BatchRelease reported Ready for step k during the current plan
+	MaxReadyPods   int            // most new-revision pods the BatchRelease has reported ready (same BatchRelease, size and template)
 	ApprovedStep   int32          // step approved by the user in this visit (0 none)
 	RoutedOK       map[int32]bool
 	OutstandingReq bool // an explicit user request that may move the cursor non-sequentially
@@ -163,22 +165,24 @@ type Track struct {
 
 	// last user disturbance kind (release / rollback / scale / plan-edit / jump / delete / disable / pause)
 	LastDisturbance string
-	Released        bool // the first template change (the release itself) happened
+	RequestState    v1beta1.CanaryStepState // sub-state the current step was in when the controller acted on the user's last jump / plan edit ("" none)
+	Released        bool                    // the first template change (the release itself) happened
 	// since the Rollout was last Healthy:
 	Superseded             bool // a template change hit a progressing release
 	Scaled                 bool // the workload was scaled
 	ChangedWhileFinalising bool // a template change hit Progressing/Cancelling or /Finalising
 
 	// C10
-	Cancel          *CancelState            // the rollback / supersession in flight, nil if none
-	StableTpl       *corev1.PodTemplateSpec // workload template before the release in flight began
-	CanaryTpl       *corev1.PodTemplateSpec // workload template the controller recorded as the canary revision
-	Cancels         int                     // rollbacks / supersessions armed during the run
-	CancelsHot      int                     // ... of which with canary traffic installed
-	HandBacks       int                     // hand-back events judged while armed with traffic
-	Restarts        int                     // supersession restarts judged
-	SupersedeWrites int                     // BatchRelease writes on the workload judged between supersession and restart
-	RolledBacks     int                     // rollback completions judged
+	Cancel           *CancelState            // the rollback / supersession in flight, nil if none
+	StableTpl        *corev1.PodTemplateSpec // workload template before the release in flight began
+	CanaryTpl        *corev1.PodTemplateSpec // workload template the controller recorded as the canary revision
+	Cancels          int                     // rollbacks / supersessions armed during the run
+	CancelsHot       int                     // ... of which with canary traffic installed
+	HandBacks        int                     // hand-back events judged while armed with traffic
+	Restarts         int                     // supersession restarts judged
+	BRFinalizerDrops int                     // BatchRelease finalizer removals judged (C18)
+	SupersedeWrites  int                     // BatchRelease writes on the workload judged between supersession and restart
+	RolledBacks      int                     // rollback completions judged
 
 	pendingRelease bool // a template change was written since the Rollout was last Healthy
 	cancelUnjudged bool // a template change hit a phase the cancel monitor does not classify
@@ -411,6 +415,36 @@ func (m *stdMonitor) checkNoVoid(w *World, wr *Write) {
 	}
 }
 
+// newRevisionHash: the pod-template-hash label the pods of the revision being released carry,
+// derived from the workload (CloneSet: its template; canary style: the canary Deployment whose
+// template is the workload's current one). "" when it cannot be told.
+func (m *stdMonitor) newRevisionHash(w *World) string {
+	s := m.t.S
+	o := w.workloadObject(s)
+	if o == nil {
+		return ""
+	}
+	tpl := templateOf(o)
+	if s.Workload == "cloneset" {
+		return revisionHash(tpl)
+	}
+	if s.Style != "canary" {
+		return ""
+	}
+	want, _ := json.Marshal(templateWithoutHash(tpl).Spec)
+	for _, d := range w.ListAll(GVKDeployment, s.Namespace) {
+		cd := d.(*appsv1.Deployment)
+		if cd.Labels[util.CanaryDeploymentLabel] != s.Name || cd.DeletionTimestamp != nil {
+			continue
+		}
+		have, _ := json.Marshal(templateWithoutHash(&cd.Spec.Template).Spec)
+		if string(have) == string(want) {
+			return k8sTemplateHash(&cd.Spec.Template)
+		}
+	}
+	return ""
+}
+
 // context names the circumstances a C04 violation arose in, derived from what the user did since
 // the Rollout was last Healthy and from the store, so that different defects behind one
 // invariant get different signatures and a listed finding does not mask another one.
@@ -511,7 +545,9 @@ func (w *World) Residue(s Scenario) []string {
 	for _, o := range w.ListAll(GVKDeployment, s.Namespace) {
 		// a canary Deployment whose BatchRelease owner is gone and whose finalizer has been
 		// removed is already handed to the garbage collector
-		if o.GetLabels()[util.CanaryDeploymentLabel] == s.Name && o.GetDeletionTimestamp() == nil && hasFinalizer(o, util.CanaryDeploymentFinalizer) {
+		// (a canary Deployment still holding the BatchRelease's protection finalizer once that
+		// BatchRelease is gone can never be collected, being deleted or not)
+		if o.GetLabels()[util.CanaryDeploymentLabel] == s.Name && hasFinalizer(o, util.CanaryDeploymentFinalizer) {
 			out = append(out, "canary Deployment "+o.GetName()+" still exists and holds its finalizer")
 		}
 	}
@@ -527,8 +563,39 @@ func hasFinalizer(o interface{ GetFinalizers() []string }, f string) bool {
 	return false
 }
 
+// batchReleaseFinalizer is batchrelease.ReleaseFinalizer.
+const batchReleaseFinalizer = "rollouts.kruise.io/batch-release-finalizer"
+
+// checkBatchReleaseFinalizer: the BatchRelease controller drops its own finalizer only after the
+// workload was released and the canary Deployments it created were released for collection.
+func (m *stdMonitor) checkBatchReleaseFinalizer(w *World, wr *Write) {
+	s := m.t.S
+	if wr.GVK != GVKBatchRelease || wr.Before == nil || !hasFinalizer(wr.Before, batchReleaseFinalizer) {
+		return
+	}
+	if wr.After != nil && hasFinalizer(wr.After, batchReleaseFinalizer) {
+		return
+	}
+	m.t.BRFinalizerDrops++
+	var res []string
+	for _, o := range w.ListAll(GVKDeployment, s.Namespace) {
+		if o.GetLabels()[util.CanaryDeploymentLabel] == s.Name && hasFinalizer(o, util.CanaryDeploymentFinalizer) {
+			res = append(res, "canary Deployment "+o.GetName()+" still holds "+util.CanaryDeploymentFinalizer)
+		}
+	}
+	if o := w.workloadObject(s); o != nil {
+		if v, ok := o.GetAnnotations()[util.BatchReleaseControlAnnotation]; ok && strings.Contains(v, string(wr.Before.GetUID())) {
+			res = append(res, "workload still carries this BatchRelease's control-info annotation")
+		}
+	}
+	if len(res) > 0 {
+		w.Violate("C18", "c18-batchrelease-finalizer-removed-with-residue", "%s removed the BatchRelease finalizer while its cleanup is incomplete: %s", wr, strings.Join(res, "; "))
+	}
+}
+
 func (m *stdMonitor) checkFinalizerResidue(w *World, wr *Write) {
 	s := m.t.S
+	m.checkBatchReleaseFinalizer(w, wr)
 	if wr.GVK != GVKRollout || wr.Before == nil {
 		return
 	}
@@ -729,6 +796,7 @@ func (m *stdMonitor) onRolloutCancel(w *World, wr *Write, before, after *v1beta1
 		t.pendingRelease = false
 		t.cancelUnjudged = false
 		t.Superseded, t.Scaled, t.ChangedWhileFinalising = false, false, false
+		t.RequestState = ""
 		if o := w.workloadObject(s); o != nil {
 			t.StableTpl = templateOf(o).DeepCopy()
 		}
@@ -805,6 +873,9 @@ func (m *stdMonitor) onRollout(w *World, wr *Write) {
 				t.ApprovedStep = as.CurrentStepIndex
 			}
 			if bs.NextStepIndex != as.NextStepIndex {
+				if !t.OutstandingReq {
+					t.RequestState = ""
+				}
 				t.OutstandingReq = true
 				t.EpochBreak = true
 				t.LastDisturbance = "jump"
@@ -813,6 +884,9 @@ func (m *stdMonitor) onRollout(w *World, wr *Write) {
 		if !reflect.DeepEqual(before.Spec.Strategy, after.Spec.Strategy) {
 			// plan edit (hash change) or pause toggle
 			if !reflect.DeepEqual(stepsOf(before), stepsOf(after)) {
+				if !t.OutstandingReq {
+					t.RequestState = ""
+				}
 				t.OutstandingReq = true
 				t.EpochBreak = true
 				t.LastDisturbance = "plan-edit"
@@ -864,6 +938,13 @@ func (m *stdMonitor) onRollout(w *World, wr *Write) {
 		return
 	}
 
+	// the sub-state in which the controller found the step when it acted on a jump / plan edit
+	// (the first such write after the request(s): a plan edit may turn an unfinished step Ready and
+	// the jump then finds it "finished")
+	if t.OutstandingReq && t.RequestState == "" && (aIdx != bIdx || (aState != bState && !legalSubStateMove(bState, aState))) && progressingReason(after) == v1alpha1.ProgressingReasonInRolling {
+		t.RequestState = bState
+	}
+
 	// --- leaving StepTrafficRouting: C03 O2 (the configured share equals the step's value)
 	if bState == v1beta1.CanaryStepStateTrafficRouting && aState != bState && aIdx == bIdx && int(bIdx) >= 1 && int(bIdx) <= len(steps) && progressingReason(after) == v1alpha1.ProgressingReasonInRolling {
 		st := steps[bIdx-1]
@@ -880,6 +961,7 @@ func (m *stdMonitor) onRollout(w *World, wr *Write) {
 		sequential := aIdx == bIdx+1 && bState == v1beta1.CanaryStepStateReady
 		if sequential && !t.OutstandingReq {
 			m.checkAdvance(w, wr, after, bIdx)
+			t.RequestState = "" // the step reached by the last request has been left in order
 		} else if !t.OutstandingReq && !sequential {
 			w.Violate("C02", "c02-cursor-moved-without-request", "%s: step cursor moved %d/%s -> %d/%s without an explicit user request", wr, bIdx, bState, aIdx, aState)
 		}
@@ -947,7 +1029,7 @@ func (m *stdMonitor) checkAdvance(w *World, wr *Write, ro *v1beta1.Rollout, k in
 		return
 	}
 	st := steps[k-1]
-	if !t.ReadySeen[k] && m.workloadReplicas(w) > 0 {
+	if !m.readyFor(w, ro, k) && m.workloadReplicas(w) > 0 {
 		w.Violate("C02", "c02-advance-without-ready", "%s: left step %d although the BatchRelease never reported that step's batch Ready", wr, k)
 	}
 	if t.S.HasTraffic() && (st.Traffic != nil || len(st.Matches) > 0) && !t.RoutedOK[k] {
@@ -960,6 +1042,21 @@ func (m *stdMonitor) checkAdvance(w *World, wr *Write, ro *v1beta1.Rollout, k in
 	if !auto && t.ApprovedStep != k {
 		w.Violate("C02", "c02-advance-without-approval", "%s: left step %d (manual pause) without a user approval in this visit", wr, k)
 	}
+}
+
+// readyFor: the pods step k asks for were reported ready, either for that step index or, after
+// a plan edit the BatchRelease has not been told about yet, as a number of ready new-revision
+// pods at least as large.
+func (m *stdMonitor) readyFor(w *World, ro *v1beta1.Rollout, k int32) bool {
+	t := m.t
+	if t.ReadySeen[k] {
+		return true
+	}
+	steps := stepsOf(ro)
+	if int(k) < 1 || int(k) > len(steps) || steps[k-1].Replicas == nil {
+		return false
+	}
+	return t.MaxReadyPods > 0 && planned(*steps[k-1].Replicas, m.workloadReplicas(w)) <= t.MaxReadyPods
 }
 
 func expectedAll(st v1beta1.CanaryStep, replicas int) bool {
@@ -1034,6 +1131,7 @@ func (m *stdMonitor) onBatchRelease(w *World, wr *Write) {
 	if string(br.UID) != t.BRUID {
 		t.BRUID = string(br.UID)
 		t.ReadySeen = map[int32]bool{}
+		t.MaxReadyPods = 0
 		t.LastExposure = -1
 	}
 	ro := w.Rollout(s.Namespace, s.Name)
@@ -1043,6 +1141,11 @@ func (m *stdMonitor) onBatchRelease(w *World, wr *Write) {
 			br.Status.ObservedGeneration == br.Generation && br.Status.ObservedReleasePlanHash == util.HashReleasePlanBatches(&br.Spec.ReleasePlan) {
 			for k := int32(1); k <= br.Status.CanaryStatus.CurrentBatch+1; k++ {
 				t.ReadySeen[k] = true
+			}
+			if cb := int(br.Status.CanaryStatus.CurrentBatch); cb < len(br.Spec.ReleasePlan.Batches) {
+				if n := planned(br.Spec.ReleasePlan.Batches[cb].CanaryReplicas, m.workloadReplicas(w)); n > t.MaxReadyPods {
+					t.MaxReadyPods = n
+				}
 			}
 			// equal-replica steps: readiness of an earlier step with the same planned replicas carries over
 			if ro != nil {
@@ -1131,6 +1234,7 @@ func (m *stdMonitor) onWorkload(w *World, wr *Write) {
 	}
 	if wr.Actor == ActorUser {
 		t.EpochBreak = true
+		t.MaxReadyPods = 0 // size or template changed (or may have)
 		if wr.Before != nil {
 			if bt, at := templateOf(wr.Before), templateOf(wr.After); bt != nil && at != nil && !reflect.DeepEqual(bt.Spec, at.Spec) {
 				if t.Released {
@@ -1212,7 +1316,9 @@ func (m *stdMonitor) onWorkload(w *World, wr *Write) {
 	t.LastExposure = exp
 	t.EpochBreak = false
 	// C03 O3: first step configures traffic => stable Service pinned before the first pods are exposed
-	if exp > 0 && ro != nil && s.HasTraffic() && !s.DisableCanarySvc && ro.DeletionTimestamp == nil && !ro.Spec.Disabled &&
+	// (judged on the BatchRelease's first batch only: after a jump back to step 1 it may still be
+	// executing the later batch it was given before)
+	if exp > 0 && idx == 0 && ro != nil && s.HasTraffic() && !s.DisableCanarySvc && ro.DeletionTimestamp == nil && !ro.Spec.Disabled &&
 		ro.Status.Phase == v1beta1.RolloutPhaseProgressing && progressingReason(ro) == v1alpha1.ProgressingReasonInRolling {
 		steps := stepsOf(ro)
 		sub := ro.Status.GetSubStatus()
@@ -1248,8 +1354,18 @@ func (m *stdMonitor) onNetwork(w *World, wr *Write) {
 	sub := ro.Status.GetSubStatus()
 	k := sub.CurrentStepIndex
 	// O1: a canary share is installed only after the step's pods were reported ready
-	if progressingReason(ro) == v1alpha1.ProgressingReasonInRolling && !t.ReadySeen[k] && m.workloadReplicas(w) > 0 {
-		w.Violate("C03", "c03-traffic-before-pods-ready", "%s: canary share (weight=%d match=%q) installed for step %d before its pods were reported ready", wr, rt.Weight, rt.Match, k)
+	if progressingReason(ro) == v1alpha1.ProgressingReasonInRolling && !m.readyFor(w, ro, k) && m.workloadReplicas(w) > 0 {
+		// the circumstances go into the signature: a jump / plan edit acted upon while the current
+		// step had not finished its own upgrade, one acted upon after it, or none at all
+		sig := "c03-traffic-before-pods-ready"
+		switch t.RequestState {
+		case "":
+		case v1beta1.CanaryStepStateInit, v1beta1.CanaryStepStateUpgrade:
+			sig += "-request-before-step-upgraded"
+		default:
+			sig += "-request-after-step-upgraded"
+		}
+		w.Violate("C03", sig, "%s: canary share (weight=%d match=%q) installed for step %d before its pods were reported ready", wr, rt.Weight, rt.Match, k)
 	}
 	if t.PausedSince > 0 && t.PausedSince <= t.ReconcileStart && progressingReason(ro) == v1alpha1.ProgressingReasonInRolling {
 		w.Violate("C02", "c02-traffic-written-while-paused", "%s: gateway written for step %d while the rollout is paused", wr, k)
